@@ -199,7 +199,8 @@ def run(ctx, F):
     ctx.judge(okg, RULE, "new units are freed in regions of min(grain, new_max - old_max)", expected="min(self.grain, new_max - old_max) with old_max = current_units before the update",
               found=fg, where=where(gb), key=RULE + "|grain")
     # the limit given by Map64 is base + size_in_pages(units, heads)
-    m64 = [f2 for q, f2 in F.fns.items() if q.endswith("Map64 as util::heap::layout::vm_map::VMMap>::create_parent_freelist")]
+    m64 = [f2 for q, f2 in F.fns.items() if "Map64 as " in q and q.endswith("VMMap>::create_parent_freelist")]
+    ctx.judge(len(m64) == 1, RULE, "Map64::create_parent_freelist found", expected="1", found=str(len(m64)), key=RULE + "|map64-site")
     if m64:
         g2 = m64[0]
         news = live_calls(g2, q=RM + "new")
